@@ -223,6 +223,37 @@ CLAIMED = {
         "directory symlinks excluded (K2).",
         "DESIGN.md §7 C07",
     ),
+    "C09": (
+        "Lean 4 total model of lexer/parser/binder (none = rejected) + theorems on the phase order of main() (every template/evaluation error exits 3/4 before the first renamer call, for every renamer and tree), exit statuses over the extracted except table, structural rejections; bounded-exhaustive and random differential test of accept/reject and trees vs the real ANTLR parser and CLI runs asserting status, message location and an untouched tree",
+        "Proved in Lean: the model's lexer, parser and binder are total (every template is accepted with a tree or "
+        "rejected); a lexer error rejects the whole template; a tag without argument list or context, an unclosed "
+        "context, an alias given arguments or a context are rejected; alias expansion is fuel-bounded so a cyclic alias "
+        "set ends in an error; TemplateSyntaxError/TemplateSemanticError exit 3, TemplateEvaluationError exits 4 over "
+        "the except order extracted from cli.py; in the phase model of main() every compile error and every filter/sort "
+        "evaluation failure returns before the renamer is called at all (calls = [], renamer state unchanged) and the "
+        "working directory is restored. Partial: that the real ANTLR parser/binder reject exactly the same templates is "
+        "the correspondence (all strings over a 9-symbol alphabet up to length 5, mutated valid templates, random "
+        "strings; name/filter/sort/alias positions through the CLI, including expressions that fail only for later "
+        "files), where the oracle demands status 3/4 (never a traceback), a message with a position inside the text, "
+        "and a byte-identical tree.",
+        "Trusted: Lean kernel; hand-written parser/binder model tied by sampled correspondence; the phase model of "
+        "main() is hand-written from cli.py/pipeline.py and tied by the CLI stream; ANTLR's messages are not modelled.",
+        "DESIGN.md §7 C09",
+    ),
+    "C15": (
+        "Lean 4 theorems on the renderer (mutual induction over bound templates): an alias renders exactly as its text inlined, as one string, also inside a tag context, with the shared Count state threaded identically + differential test of alias vs inlined templates through the real CLI",
+        "Proved in Lean for every bound template, file and counter state: rendering distributes over concatenation; "
+        "replacing every alias node by its body (inlining) yields the same output and the same final tag state "
+        "(render_inlineElem/render_inlinePat, hence render_alias_inline); an alias contributes one string equal to the "
+        "concatenation of its parts, and inside a context the enclosing tag receives exactly that string. The tie to "
+        "the real binder/AliasTag is the correspondence: generated alias sets (nested aliases, aliases containing "
+        "Count and context tags, aliases used several times and inside contexts, in name/path/filter/sort positions) "
+        "run through the CLI once with aliases and once with the text substituted by hand, comparing renames and "
+        "status; model renderSeq vs the real renames.",
+        "Trusted: Lean kernel; mini binder/renderer model (Name/Base/Ext/Upper/Lower/Count vocabulary) tied by sampled "
+        "correspondence; expression-position substitution is checked on the implementation only.",
+        "DESIGN.md §7 C15",
+    ),
     "C05": (
         "Lean 4 refinement theorem over the pipeline (renamers in simulation report the same renames and end the same way, for every file list, plan, order, strategy and answers) + set-algebra lemma of the dry-run state; the simulation premise DryRunRenamer ~ FileRenamer/FileMover is tied by running every scenario dry and real on the implementation and on the model",
         "Proved in Lean (C05.runs_agree): if two renamers are related by a state relation that every pair of "
